@@ -10,7 +10,7 @@ use std::sync::{Arc, Mutex};
 #[derive(Serialize, Deserialize, Clone, Debug)]
 pub enum Case {
     Block { key: String, block: String },
-    /// one cipher object, sequence of ops: 0 enc(b0), 1 enc(b1), 2 dec(b0), 3 dec(b1)
+    /// sequence of ops: 0 enc(b0), 1 enc(b1), 2 dec(b0), 3 dec(b1), 4..6 rebuild the cipher with key variant 0..2
     History { key: String, seq: Vec<u16> },
 }
 
@@ -65,15 +65,41 @@ fn eval(ctx: &Ctx, case: &Case) {
             }
         }
         Case::History { key, seq } => {
-            let k = h16(key);
+            // ops 0..=3: enc/dec of b0/b1 on the current object; 4..=6: replace the object by a fresh one
+            // for key variant j (0 = base key, 1 = last byte changed, 2 = first byte changed)
+            let base = h16(key);
+            let variant = |j: u16| -> [u8; 16] {
+                let mut k = base;
+                match j {
+                    1 => k[15] ^= 0x01,
+                    2 => k[0] ^= 0x80,
+                    _ => {}
+                }
+                k
+            };
             let blocks = [h16("00112233445566778899aabbccddeeff"), h16("fedcba98765432100123456789abcdef")];
+            let mut k = base;
             ctx.call();
-            let c = match guard(|| gm_sm4::Sm4Cipher::new(&k)) {
+            let mut c = match guard(|| gm_sm4::Sm4Cipher::new(&k)) {
                 Guard::Done(Ok(c)) => c,
                 _ => return,
             };
-            let dbg0 = format!("{:?}", c);
+            let mut dbg0 = format!("{:?}", c);
             for (i, op) in seq.iter().enumerate() {
+                if *op >= 4 {
+                    k = variant(*op - 4);
+                    ctx.call();
+                    c = match guard(|| gm_sm4::Sm4Cipher::new(&k)) {
+                        Guard::Done(Ok(c)) => c,
+                        _ => return,
+                    };
+                    dbg0 = format!("{:?}", c);
+                    if i + 1 == seq.len() {
+                        // judge the freshly built object with one encryption
+                        check_one(ctx, case, &c, &k, &blocks[0], false, "history");
+                    }
+                    continue;
+                }
                 let b = &blocks[(*op & 1) as usize];
                 let dec = *op >= 2;
                 if i + 1 == seq.len() {
@@ -110,7 +136,7 @@ pub fn replay(ctx: &Arc<Ctx>, v: &Value) {
 
 pub fn run(ctx: &Arc<Ctx>) {
     refmodels::selftest::run(&[ctx.tier.pick("sm4", "sm4long")]).unwrap_or_else(|e| ctx.machinery_error(format!("reference self-test failed: {}", e)));
-    ctx.set_rule("keys x blocks over {0^128, 1^128, 128 single-bit, 16 byte patterns, standard vector, seeded}; derived families forcing every S-box index in every byte lane of round 1 (data path) and of the first key-schedule round; all op sequences to depth 4 over {enc b0, enc b1, dec b0, dec b1} on one cipher object. Oracle: independent SM4 with algebraically generated S-box.");
+    ctx.set_rule("keys x blocks over {0^128, 1^128, 128 single-bit, 16 byte patterns, standard vector, seeded}; derived families forcing every S-box index in every byte lane of round 1 (data path) and of the first key-schedule round; all op sequences to depth 4 over {enc b0, enc b1, dec b0, dec b1, rebuild the object with the same key / a key differing in the last byte / in the first byte} (2801 histories per base key). Oracle: independent SM4 with algebraically generated S-box.");
     let nseed = ctx.tier.pick(4, 16);
     let keys = blocks128(ctx.seed, "c02keys", nseed);
     let blocks = blocks128(ctx.seed, "c02blocks", nseed);
@@ -143,7 +169,7 @@ pub fn run(ctx: &Arc<Ctx>) {
     }
     ctx.sample(serde_json::to_value(&cases[3]).unwrap());
     ctx.sample(serde_json::to_value(&cases[cases.len() - 1]).unwrap());
-    cases.par_iter().for_each(|c| eval(ctx, c));
+    run_cases(ctx, &cases, 64, eval);
 
     // structural coverage on the reference running in lock-step over the derived families
     let seen = Mutex::new(std::collections::BTreeSet::new());
@@ -168,19 +194,22 @@ pub fn run(ctx: &Arc<Ctx>) {
         let c2 = ctx.clone();
         let k2 = key.clone();
         let model = HistModel {
+            batch: 64,
             inits: vec![vec![]],
-            actions: Box::new(move |h: &[u16]| if h.len() < depth { vec![0, 1, 2, 3] } else { vec![] }),
-            visit: Box::new(move |h: &[u16]| {
+            actions: Box::new(move |h: &[u16]| if h.len() < depth { vec![0, 1, 2, 3, 4, 5, 6] } else { vec![] }),
+            visit: Arc::new(move |h: &[u16]| {
                 if !h.is_empty() {
-                    eval(&c2, &Case::History { key: k2.clone(), seq: h.to_vec() });
+                    let c = Case::History { key: k2.clone(), seq: h.to_vec() };
+                    eval(&c2, &c);
+                    prefix_push(serde_json::to_value(&c).unwrap());
                 }
             }),
         };
         let st = explore(model);
         ctx.depth(st.max_depth);
         ctx.cov("immutability_model", json!({"unique_states": st.unique_states, "generated": st.generated, "max_depth": st.max_depth}));
-        if st.unique_states != 341 {
-            ctx.machinery_error(format!("immutability model visited {} states, expected 341", st.unique_states));
+        if st.unique_states != 2801 {
+            ctx.machinery_error(format!("immutability model visited {} states, expected 2801", st.unique_states));
         }
     }
     ctx.sample(json!({"History": {"key": hex::encode(std_key), "seq": [0, 3, 1, 2]}}));
